@@ -4,20 +4,15 @@
 # `C19_AVOID= ./check C19` (empty) searches with nothing excluded, `C19_AVOID=a,b ./check C19`
 # with a custom set.
 _C19_AVOID = ",".join([
-    "hint-leak-literal",   # literal typed by the enclosing hint: `v := 0 < x_i64`, `i8(1 + x_i64)` -> invalid WASM
-    "pow-literal-base",    # `0.5 ^ x_f32`: base literal typed independently of the exponent -> invalid WASM
     "infer-decl-literal",  # `s := 0.0` then `s = 0` turns s into i64 (inconsistent types -> invalid WASM)
-    "cond-non-u8",         # `if x_i64 {` / `for x_f64 {` accepted -> invalid WASM
     "narrow-wrap",         # i8/i16/u8/u16 arithmetic is not wrapped to the width
     "cast-trunc",          # narrowing casts to i8/i16/u8/u16 do not truncate
     "cast-sat-s2u",        # signed -> unsigned casts do not saturate
     "cast-sat-u2s",        # unsigned -> signed casts do not saturate
     "cast-f2i-sat",        # float -> integer casts trap instead of saturating
     "prec-unary-pow",      # `-2 ^ 2` parsed as (-2) ^ 2
-    "cmp-chain",           # `a < b < c`: third operand silently dropped
     "cmp-eq-rel",          # `a == b < c` parsed as a == (b < c)
     "andor-mixed",         # `a or b and c` parsed as a or (b and c)
-    "arg-zeroext",         # stl/wasm/node.go passes negative i8/i16 samples zero-extended (TestC19Runtime)
 ])
 
 CHECKS["C19"] = dict(
